@@ -1006,6 +1006,21 @@ impl<'a> Gen<'a> {
             }
             _ => {}
         }
+        // time parsing: half of the time a string and a format that belong together
+        if matches!(s.f, "parse_time" | "parse_time_with_zone") && self.tape.chance(1, 2) {
+            let zone = s.f == "parse_time_with_zone";
+            let y = [1970, 1999, 2000, 2023, 2024, 2038, 2100][self.tape.below(7)];
+            let (m, dd) = [(1, 1), (2, 28), (2, 29), (3, 1), (12, 31), (6, 15), (12, 3)][self.tape.below(7)];
+            let (hh, mi, ss) = [(0, 0, 0), (23, 59, 59), (13, 51, 55), (12, 0, 0)][self.tape.below(4)];
+            let t = if zone {
+                let z = self.tape.pick_s(&["+0000", "+0500", "-0330", "+1400", "-1200", "+0545"]);
+                format!("\"{:04}-{:02}-{:02} {:02}:{:02}:{:02} {}\"", y, m, dd, hh, mi, ss, z)
+            } else {
+                format!("\"{:04}-{:02}-{:02}T{:02}:{:02}:{:02}\"", y, m, dd, hh, mi, ss)
+            };
+            let fm = if zone { "\"%Y-%m-%d %H:%M:%S %z\"" } else { "\"%Y-%m-%dT%H:%M:%S\"" };
+            return Expr::call(s.f, vec![Expr::Lit(t), Expr::Lit(fm.to_string())]);
+        }
         // concretise argument 0 when it is a generic collection, so lambdas know their `.`
         let mut arg_kinds: Vec<A> = s.args.to_vec();
         if let Some(v) = s.var {
